@@ -225,7 +225,9 @@ func HasPtrToImpl(d *TypeDesc) bool {
 
 // HasFixedTagOnPointer: a tagged field `fixed32`/`fixed64` whose Go type is a
 // pointer to uint32/float32/uint64/float64 (what protoc-gen-go emits for
-// proto2 optional fixed/float fields).
+// proto2 optional fixed/float fields) or a slice of such pointers (since
+// 0d0d81c the fixed codec is also installed for the elements of repeated
+// fields, again without regard to pointers).
 func HasFixedTagOnPointer(d *TypeDesc) bool {
 	found := false
 	Walk(d, func(x, _ *TypeDesc) {
@@ -233,21 +235,29 @@ func HasFixedTagOnPointer(d *TypeDesc) bool {
 			return
 		}
 		for i := range x.Fields {
-			f := &x.Fields[i]
-			if f.T.K != KPtr {
-				continue
-			}
-			base := &f.T
-			for base.K == KPtr {
-				base = base.Elem
-			}
-			if f.Wire == "fixed32" && (base.K == KUint32 || base.K == KFloat32) ||
-				f.Wire == "fixed64" && (base.K == KUint64 || base.K == KFloat64) {
+			if FixedTagOnPointer(&x.Fields[i]) {
 				found = true
 			}
 		}
 	})
 	return found
+}
+
+// FixedTagOnPointer is the per-field predicate of HasFixedTagOnPointer.
+func FixedTagOnPointer(f *FieldDesc) bool {
+	t := &f.T
+	if t.K == KSlice {
+		t = t.Elem
+	}
+	if t.K != KPtr {
+		return false
+	}
+	base := t
+	for base.K == KPtr {
+		base = base.Elem
+	}
+	return f.Wire == "fixed32" && (base.K == KUint32 || base.K == KFloat32) ||
+		f.Wire == "fixed64" && (base.K == KUint64 || base.K == KFloat64)
 }
 
 // HasNumberCollisionMod65536: two fields of one struct whose numbers are
